@@ -144,35 +144,30 @@ func (e *ruleSetEndpoint) readSingleBlob(ctx context.Context, bucket *blob.Bucke
 func (e *ruleSetEndpoint) readRuleSet(ctx context.Context, bucket *blob.Bucket, key string) (
 	*config.RuleSet, error,
 ) {
-	attrs, err := bucket.Attributes(ctx, key)
-	if err != nil {
-		return nil, mapError(err, "failed to get blob attributes")
-	}
-
+	// Everything is taken from the very same response: the contents, the content type, the modification time
+	// and the hash. If the attributes of the blob were requested separately, and the blob were replaced in
+	// between, the hash would not belong to the contents, and the same contents would be applied again by the
+	// next run (or, the other way around, new contents would never be applied). Not every object has an MD5
+	// hash either (e.g. S3 objects created by multipart uploads).
 	reader, err := bucket.NewReader(ctx, key, nil)
 	if err != nil {
-		return nil, mapError(err, "failed reading blob contents")
+		return nil, mapError(err, "failed to get blob attributes and contents")
 	}
 
 	defer reader.Close()
 
-	// not every object has an MD5 hash (e.g. S3 objects created by multipart uploads). Without
-	// it, changes of the rule set could not be recognized.
 	digest := sha256.New()
 
-	contents, err := config.ParseRules(attrs.ContentType, io.TeeReader(reader, digest), false)
+	contents, err := config.ParseRules(reader.ContentType(), io.TeeReader(reader, digest), false)
 	if err != nil {
 		return nil, errorchain.
 			NewWithMessage(heimdall.ErrInternal, "failed to decode received rule set").
 			CausedBy(err)
 	}
 
-	contents.Hash = attrs.MD5
-	if len(contents.Hash) == 0 {
-		contents.Hash = digest.Sum(nil)
-	}
+	contents.Hash = digest.Sum(nil)
 	contents.Source = e.sourceOf(key)
-	contents.ModTime = attrs.ModTime
+	contents.ModTime = reader.ModTime()
 
 	return contents, nil
 }
